@@ -17,12 +17,12 @@ from .. import monitors as M
 from .. import runs as R
 from ..common import Slice
 
-MODULE = "PyhmsVerif.Props.C19"
-THEOREMS = []
-LEVEL = "other"
-LEVEL_TEXT = "Partial by nature: pickling is runtime behaviour no executable model exhibits. Checked on real trees at every metaepoch boundary: dump/load yields an observationally identical tree (full canonical snapshot, summary, stop-condition verdict), dumping changes neither the live tree nor the global random states, and the loaded tree run further keeps structure / level limit / exact accounting relative to its restored counters / never-worsening best. The model side contributes that these invariants are inductive from any state that satisfies them."
-LEVEL_NOTE = "dill, cma, scipy samplers are trusted runtime; sampled configurations only."
-TECHNIQUE = "snapshot/restore differential on real trees at every boundary + continuation under invariant monitors; inductive-invariant theorems on the model side"
+MODULE = 'PyhmsVerif.Props.C19'
+THEOREMS = ['C19.C19_continue', 'C19.step_good', 'C19.C19_reachable_good']
+LEVEL = 'proof'
+LEVEL_TEXT = 'Model side proved, runtime side sampled (partial). Theorems: every invariant used for C01/C03/C04/C06/C07/C08/C11/C12 (well-formedness, in-box log, exact accounting relative to the current counters and log, level limit, generation chaining, nothing-observed-forgotten, log coverage, elitism pairs) is inductive from ANY state that satisfies it, not only from a freshly constructed tree (C19_continue: any accepted continuation of any length from a good state ends in a good state, old demes in place, inactive ones frozen, histories only extended), and every reachable state is good (C19_reachable_good) — so every state at which a snapshot can be taken is a valid starting point and the continued run keeps the tree invariants. Tie / runtime side: pickle_dump + pickle_load at every boundary of real runs (callable and lambda objectives, all engine mixes): identical snapshot, summary and GSC verdict, live tree and both global RNG states untouched, and the continuation of the LOADED tree is monitored (structure, level limit, accounting relative to restored counters, never-worsening best).'
+LEVEL_NOTE = 'Trusted: Lean kernel + standard axioms; that dill really restores the object graph (CMA-ES internals, sampler state, SHADE memory) is runtime behaviour no model can exhibit — it is checked differentially on sampled runs, not proved. In the model a snapshot is the state itself.'
+TECHNIQUE = 'Lean 4 theorems (invariants inductive from any state => restored trees keep the tree invariants) + snapshot/restore differential on real runs at every boundary'
 RULE = "case = (configuration, boundary k): dump+load at that boundary; configurations as in the traced-run generator but untraced (objective = picklable callable or lambda); non-trivial = tree with >= 2 demes at the snapshot point; distinct by (configuration hash, k)"
 ASSUMPTIONS = ["dill can serialise the objective (module-level callable or lambda)", "continuation of live and loaded tree need not be identical (dill copies np.random.randn by value for CMA-ES)"]
 EXPLANATION = "differential snapshot/restore on real runs; see LEVEL_TEXT"
